@@ -761,6 +761,39 @@ class Program:
                     self.by_did[(ck, raw["did"], b.promoted)] = b
             self.facts[ck] = d["facts"]
         self._children = None
+        self._resolve_literal_consts()
+
+    def _resolve_literal_consts(self):
+        """A named constant whose whole definition is one string literal (`const BRANCH_LAST: &str = "╰─ "`) is read as
+        that literal wherever it is used: naming a literal does not change what the code does, and the rules compare
+        literals. (Scalar constants are already evaluated by the exporter.)"""
+        lit = {}
+        for (ck, path, pr), b in self.bodies.items():
+            if pr >= 0 or len(b.blocks) != 1 or b.kind not in ("Const", "AssocConst", "Static"):
+                continue
+            st = [x for x in b.blocks[0]["stmts"] if x["k"] == "assign"]
+            if len(st) == 1 and st[0]["p"]["l"] == 0 and not st[0]["p"]["proj"] and st[0]["rv"]["k"] == "use" and st[0]["rv"]["o"]["k"] == "const":
+                c = st[0]["rv"]["o"]["c"]
+                if c.get("ty") in ("&str", "&'static str") and str(c.get("d", "")).startswith('"') and not c.get("uneval"):
+                    lit[(ck, path)] = c
+        if not lit:
+            return
+
+        def walk(x, ck):
+            if isinstance(x, dict):
+                c = x.get("c")
+                if x.get("k") == "const" and isinstance(c, dict) and c.get("uneval") and (c.get("promoted") in (None, -1)):
+                    tgt = lit.get((ck, norm(c["uneval"])))
+                    if tgt is not None:
+                        x["c"] = dict(tgt, named=c.get("d"))
+                        return
+                for v in x.values():
+                    walk(v, ck)
+            elif isinstance(x, list):
+                for v in x:
+                    walk(v, ck)
+        for (ck, path, pr), b in self.bodies.items():
+            walk(b.blocks, ck)
 
     # -- lookup in the main library crate
     def lib_bodies(self, crate="divan"):
